@@ -255,9 +255,21 @@ def doe_mapping(args):
 from .xhair import crosshair  # noqa: E402  (second opinion, thorough tier)
 
 
+def run_containment(args):
+    """Whole real runs (concrete objective, seeded randomness, solver-placed transient failure): every
+    vector handed to the objective lies in the box.  Composition glue, not a proof over seeds; the
+    per-source guarantees are the operator / generator / position-update obligations."""
+    from . import c09
+    return c09.skeleton(dict(args, only_containment=True))
+
+
 def configs(tier):
     out = []
     Q = tier == 'quick'
+    for algo in ('nsga2', 'epsmoea', 'omopso', 'smpso', 'psoga'):
+        out.append({'name': 'run-containment-%s' % algo, 'task': 'run_containment',
+                    'args': {'algo': algo, 'N': 3 if Q else 4, 'G': 2 if Q else 3, 'max_faults': 1}, 'weight': 10,
+                    'engine': {'validate': 0, 'path_timeout_s': 120}})
     box_eng = {'mode': 'havoc', 'domain_checks': False, 'validate': 30}
     dom_eng = {'validate': 20, 'first_timeout_s': 3}
     for dim in ((1, 2) if Q else (1, 2, 3)):
